@@ -295,6 +295,18 @@ def i4(prog, ctx):
                 return k, s
         return None, None
     k1, s1 = key_tuple(init)
+    if k1 is None:
+        # the annotation's ids may be loaded by a helper of the class into another table: the store whose value is the id attribute
+        for name_, f_ in prog.methods_of(prog.cls(IDP, "FeatureIdStorage"), inherited=False).items():
+            for s_ in walk_no_nested(f_):
+                if isinstance(s_, ast.Assign) and isinstance(s_.targets[0], ast.Subscript) and "attributes[id_attribute]" in src(s_.value):
+                    k = s_.targets[0].slice
+                    if isinstance(k, ast.Name):
+                        for a in walk_no_nested(f_):
+                            if isinstance(a, ast.Assign) and isinstance(a.targets[0], ast.Name) and a.targets[0].id == k.id:
+                                k = a.value
+                                break
+                    k1, s1 = k, s_
     k2, s2 = key_tuple(gid)
     if not isinstance(k1, ast.Tuple) or not isinstance(k2, ast.Tuple):
         raise AnalysisError("FeatureIdStorage: key tuples not found (loader %s, lookup %s)" % (k1, k2))
@@ -342,6 +354,15 @@ def i4_callers(prog, ctx):
                 continue
             n += 1
             a_chr, a_feat, a_strand = c.args
+
+            def unalias(e):
+                if isinstance(e, ast.Name):
+                    ds = [st for st in walk_no_nested(f) if isinstance(st, ast.Assign) and len(st.targets) == 1
+                          and isinstance(st.targets[0], ast.Name) and st.targets[0].id == e.id]
+                    if len(ds) == 1:
+                        return ds[0].value
+                return e
+            a_chr, a_strand = unalias(a_chr), unalias(a_strand)
             oc = src(a_chr.value) if isinstance(a_chr, ast.Attribute) and a_chr.attr == "chr_id" else None
             os_ = src(a_strand.value) if isinstance(a_strand, ast.Attribute) and a_strand.attr == "strand" else None
             seen_names = set()
